@@ -64,7 +64,7 @@ OUT_OF_SCOPE = ["crate::Inner", "crate::Slot", "crate::Slots", "dyn:DynCollect"]
 
 TRUSTED = [
     "Coq 8.16.1 kernel (coqc; coqchk in the thorough tier); vm_compute for the finite checks",
-    "translator-collect (syn 2 based; macro_rules expander for static_collect!/impl_tuple!); fails closed on unknown syntax",
+    "translator-collect (syn 2 based; macro_rules expander for static_collect!/impl_tuple!; hygienic inlining of in-crate helper functions / methods called from trace with depth limit 4, let-substitution of pure places, negation normal form of constant guards); fails closed on unknown syntax",
     "ModelTables.v: which iteration / deref / match constructs are total for each type constructor, which positions a type stores, which types own a pointer field (modelled, not verified: std / hashbrown / indexmap / slotmap / smallvec / enum-map iterators visit every element exactly once)",
     "harness-collect: token element types El / Pl and Root with their own Collect impls, the recording Trace implementation, address -> token id map",
     "rustc/cargo building the harness against the working tree for each feature set",
